@@ -180,7 +180,7 @@ func c11RunGC(co *caseOut, in c11GCInput) {
 		}
 	}
 	noteMTB()
-	lowered := false
+	lowered, flushed := false, false
 	for oi, op := range in.Ops {
 		if failed {
 			break
@@ -232,6 +232,7 @@ func c11RunGC(co *caseOut, in c11GCInput) {
 				noteMTB()
 			}
 		case "p":
+			flushed = true
 			oldPersisted = bc.VerifPersistedHeight()
 			if _, err := bc.VerifPersist(); err != nil {
 				viol("flush failed: "+err.Error(), nil)
@@ -289,7 +290,8 @@ func c11RunGC(co *caseOut, in c11GCInput) {
 					}
 				}
 			}
-			if failed {
+			if failed || !flushed {
+				// nothing was ever flushed: the persistent store is empty and a restarted node begins with its own genesis
 				break
 			}
 			// the crash: a second node on a copy of the persistent store alone
